@@ -21,7 +21,11 @@ package main
 // stay or go ("maybe" column: it stays acceptable-either-way until a sample
 // makes it present again or a later Trim selects its whole grid column). The
 // predicate must be called at most once per grid cell and with the cell's
-// current value. Totals are compared until the first Trim only.
+// current value. Totals: all of them until the first Trim; afterwards those of
+// every row/column from which no Trim removed a present cell since it was
+// created (totalsScope in countstyle.go) - a row or column that is created
+// after a Trim, also under the name of one that a Trim removed entirely, is an
+// ordinary fold again - and the value-sorted views must agree with them.
 
 import (
 	"fmt"
@@ -116,6 +120,8 @@ func runTableOps(delim string, ops []string, cp checkAt) (res result) {
 	ref := newRefTable(delim)  // present cells; ref.cols = columns that must be listed
 	maybe := map[string]bool{} // columns that may be listed or not (see above)
 	trimmed := false
+	// totals after a Trim (see totalsScope): exempt are the rows/columns that lost a present cell and survived
+	tot := totalsScope{mode: 2, staleRow: map[string]bool{}, staleCol: map[string]bool{}, lateRow: map[string]bool{}, lateCol: map[string]bool{}}
 	var impl *aggregation.TableAggregator
 	applied := 0
 	prefix := func(sig string) string {
@@ -160,7 +166,11 @@ func runTableOps(delim string, ops []string, cp checkAt) (res result) {
 		tmp := *ref
 		tmp.cols = have
 		var st string
-		if f := checkTable(impl, &tmp, &where, &st, !trimmed); f != nil {
+		scope := allTotals
+		if trimmed {
+			scope = tot
+		}
+		if f := checkTable(impl, &tmp, &where, &st, scope); f != nil {
 			f.sig = prefix(f.sig)
 			return f
 		}
@@ -184,9 +194,24 @@ func runTableOps(delim string, ops []string, cp checkAt) (res result) {
 				where = "Sample"
 				impl.Sample(arg)
 				res.transitions++
+				p := ref.split(arg, delim)
+				col, row := p[0], ""
+				if len(p) >= 2 {
+					row = p[1]
+				}
+				_, hadRow := ref.cells[row]
+				hadCol := ref.cols[col] || maybe[col]
 				if ref.sample(arg) {
 					res.accepted++
-					delete(maybe, ref.split(arg, delim)[0])
+					delete(maybe, col)
+					if !hadRow { // the row is created by this sample: an ordinary fold from here on
+						delete(tot.staleRow, row)
+						tot.lateRow[row] = trimmed
+					}
+					if !hadCol {
+						delete(tot.staleCol, col)
+						tot.lateCol[col] = trimmed
+					}
 				}
 			case 'T':
 				sel := trimSelector(arg)
@@ -238,26 +263,42 @@ func runTableOps(delim string, ops []string, cp checkAt) (res result) {
 							break
 						}
 					}
+					loses := false
+					for _, r := range gridRows {
+						if _, present := ref.cells[r][c]; present && sel(c, r) {
+							loses = true
+							break
+						}
+					}
 					switch {
 					case keeps: // stays a column that must be listed
+						if loses {
+							tot.staleCol[c] = true
+						}
 					case all:
 						delete(ref.cols, c)
 						delete(maybe, c)
+						delete(tot.staleCol, c)
+						delete(tot.lateCol, c)
 					default: // lost its cells, has an unselected absent cell
 						if ref.cols[c] {
 							delete(ref.cols, c)
 							maybe[c] = true
 						}
+						tot.staleCol[c] = true
 					}
 				}
 				for _, r := range gridRows {
 					for c := range ref.cells[r] {
 						if sel(c, r) {
 							delete(ref.cells[r], c)
+							tot.staleRow[r] = true
 						}
 					}
 					if len(ref.cells[r]) == 0 {
 						delete(ref.cells, r)
+						delete(tot.staleRow, r)
+						delete(tot.lateRow, r)
 					}
 				}
 				_ = n
